@@ -98,6 +98,15 @@ CLAIMED = {
         "nothing afterwards, failing updates are reported, no deadlock or crash. Deadlocks/crashes are confirmed natively.",
         "1 client x 1..3 operations out of 8, <=3 observers, context bound 2 (3 thorough); expressions are stubs whose failure is "
         "chosen per history; logrus and the run context are no-op stubs; gRPC/WebSocket transport outside"),
+    "C19": (
+        "Bounded exploration by the symbolic executor of the real outputValue/outputTupleDir/outputFile/configureOutput/"
+        "applyIfExistsConfig/applyFilesFields/getDirField against a harness-written afero.Fs whose pre-existing state and whose "
+        "failing call are chosen per run, with every mutation logged: a clear-cut invalid description is an error and mutates "
+        "nothing (known finding: the validation pass creates directories), an injected I/O error is always reported, and every "
+        "mutated path lies beneath the target.",
+        "dictionaries of 1..2 entries over 6 entry kinds (config tuples with every ifExists value x payload), 4 pre-existing "
+        "states, one fault at any of the first 6 filesystem calls; the exact final tree under the ifExists rules (merge/replace/"
+        "ignore semantics) is not compared; --out=file mode not covered"),
     "C20": (
         "Bounded exploration by the symbolic executor of the real RunExpr/ForeachLeaf/isLiteralTrue/isLiteralFalse/calcStats over "
         "every result tree of depth <=2 and width <=2 built through the real constructors (tuples, offset arrays, dicts; leaves "
